@@ -106,7 +106,7 @@ class DCheck(Check):
 CHECKS = {
     "C05/no-raise-progress": "process_keyqueue(codes, more) for more in {False, True}, and iterated to the end of the stream with more=False: returns (non-empty run, proper suffix of codes) or raises MoreInputRequired only if more=True; never anything else",
     "C05/prefix-stable": "for every proper prefix p of the stream: if process_keyqueue(p, True) returns (run, rem) then process_keyqueue(stream, True) returns (run, rem + rest)",
-    "C05/names": "whole stream written to the Screen's pipe, one read, then the completion alarm fired: events == ref_decode(stream) (independent reference), raw codes == stream, nothing pending",
+    "C05/names": "whole stream written to the Screen's pipe, one read, then the completion alarm fired: events == ref_decode(stream) (independent reference; names of modified cursor/editing/function keys from the xterm modifier table in spec/xterm_keys.py and of spec.termdecode.ANCHORS, not from escape.input_sequences), raw codes == stream, nothing pending",
     "C05/fragmentation": "every schedule (cut positions x timeout fired or not after each cut; final timeout always fired) through hook_event_loop/parse_input: events == concat of process_keyqueue-to-the-end(segment, more=False) over the segments between fired timeouts; callback raw codes concatenate to the stream and each callback's keys are the decoding of its raw codes; <= 1 alarm, of complete_wait; nothing pending at the end",
     "C05/get-input-split": "Screen.get_input(raw_keys=True) (max_wait=0) after each of two chunks of a stream made of complete units: events == decoding of the whole, raw == stream",
     "C05/get-input-timeout": "Screen.get_input() polled again (no new input) after complete_wait has expired: the pending truncated sequence is decoded as it stands",
@@ -840,6 +840,12 @@ def resize_pool(tier, enc):
     return out
 
 
+def modified_key_streams():
+    from spec import xterm_keys
+
+    return [e(s) for s, _n in xterm_keys.documented_table(optional=True)]
+
+
 def streams_for(tier, enc, seed):
     """Yield (kind, data, cutlevel, sync) - cutlevel: 0 whole only, 1 all 1-cut schedules, 2 also all 2-cut schedules."""
     quick = tier == "quick"
@@ -861,6 +867,12 @@ def streams_for(tier, enc, seed):
         add("table", s, 2 if (not quick or enc == "utf8" or i % 4 == 0) else 1)
     for s in termdecode.ANCHORS:
         add("table", s, 1)
+    # every documented modified key: forms [1;<m>L, [<m>L (cursor keys, home/end/5, f1-f4), O<m>P..S, [<n>;<m>~ (insert,
+    # delete, page keys, f1..f20) x every xterm modifier parameter m = 1..8, named by spec/xterm_keys.py (independent
+    # of the table under test) through ref_decode; alone and followed by an ordinary key
+    for i, s in enumerate(modified_key_streams()):
+        add("modified-key", s, 2 if (not quick or enc == "utf8") else 1)
+        add("modified-key+key", s + b"x", 1 if (not quick or enc == "utf8" or i % 4 == 0) else 0)
     for i, s in enumerate(x10_streams(tier)):
         add("x10", s, 2 if (not quick or i % 8 == 0) else 1)
     for i, s in enumerate(sgr_streams(tier)):
@@ -1035,7 +1047,7 @@ def worker(args):
 def bound_text(tier):
     quick = tier == "quick"
     return (
-        f"3 encodings x [all {len(table_streams())} table sequences, X10 reports (128 button bytes x {3 if quick else 8} coordinate pairs), "
+        f"3 encodings x [all {len(table_streams())} table sequences, every documented modified key ({len(modified_key_streams())}: cursor/home/end/5 and f1-f4 in the [1;mL, [mL, OmL forms, insert/delete/page keys/f1-f20 in the [n;m~ form, x xterm modifier parameter m = 1..8; named by spec/xterm_keys.py, not by the table) alone and followed by a key, X10 reports (128 button bytes x {3 if quick else 8} coordinate pairs), "
         f"SGR reports ({len(sgr_streams(tier))}), cursor reports ({len(cpr_streams(tier))}), all 256 single bytes and ESC+byte, UTF-8/double-byte characters valid and invalid, "
         f"{len(MALFORMED)} malformed/nested reports, every proper prefix of every sequence, all pairs of {len(unit_pool('utf8'))} representative units, "
         f"every non-ASCII byte that str.isdigit/isnumeric/isalpha/isspace accept ({len(LIARS)}) substituted/inserted at every position of {len(LIAR_BASES)} reports/sequences, "
